@@ -875,6 +875,15 @@ func textFormatFloat(args ...tengo.Object) (ret tengo.Object, err error) {
 		return
 	}
 
+	if len(s2) == 0 {
+		err = tengo.ErrInvalidArgumentType{
+			Name:     "second",
+			Expected: "format character",
+			Found:    "empty string",
+		}
+		return
+	}
+
 	ret = &tengo.String{Value: strconv.FormatFloat(f1.Value, s2[0], i3, i4)}
 
 	return
